@@ -14,7 +14,7 @@ inductive Phase where
 
 def phase : Bc.Rcv → Phase
   | .absent => .absent
-  | .refused => .refused
+  | .refused | .refusedCtx => .refused
   | .have _ _ _ => .have
   | .waiting _ _ _ => .waiting
   | .gotVal _ _ _ _ | .gotCtx _ _ _ | .gotClosed _ _ _ => .got
